@@ -137,6 +137,15 @@ fn gen_pat(rng: &mut Rng, depth: u32) -> Value {
             if set.is_empty() {
                 set.push(*rng.pick(&ALPHA));
             }
+            // the ends of the symbol range and the byte-sized constants written in the automata source
+            if rng.chance(1, 3) {
+                for _ in 0..1 + rng.below(2) {
+                    let b = if rng.chance(1, 2) { *rng.pick(&[0u8, 1, 0x7f, 0x80, 0xfe, 0xff]) } else { src_num(rng, 255) as u8 };
+                    if !set.contains(&b) {
+                        set.push(b);
+                    }
+                }
+            }
             json!({"p": set})
         }
         2 | 3 => {
@@ -936,7 +945,7 @@ fn gen_case(rng: &mut Rng) -> Value {
     for _ in 0..pieces {
         match rng.below(8) {
             0 => data.push(*rng.pick(&ALPHA)),
-            1 => data.push(*rng.pick(&[100u8, 0, 255, 65])), // outside the alphabet
+            1 => data.push(*rng.pick(&[100u8, 0, 255, 65, 254, 128])), // outside the alphabet / ends of the symbol range
             _ => {
                 let p = &pats[rng.below(np as u64) as usize];
                 let mut w = vec![];
